@@ -76,6 +76,7 @@ def tasks(tier, seed):
     shards = 16 if tier == "quick" else 48
     for i in range(shards):
         t.append((MOD, "hyp", (n // shards, seed * 1_000_003 + i, tier)))
+    t.append((MOD, "arbpairs", ()))
     try:
         from . import c14m
 
@@ -129,6 +130,28 @@ def exh(acc, k, asg, univ, shard, nshards, nslices, sl):
         acc.sample({"pts": names, "a": brief(x), "b": brief(y), "c": brief(z), "a&(b|c)": brief(x & (y | z)), "(a&b)|(a&c)": brief((x & y) | (x & z))}, layer)
 
 
+ARB_POOL = ["===1.0RC1", "===1.0rc1", "===1.0", "===1.0.0", ">=1.0", "<2", "==1.0"]
+
+
+def arbpairs(acc):
+    """=== clauses (string equality) against each other and against ranges: only commutativity and idempotence are
+    asked (the other laws mix packaging's text rules for === with the interval reading), a raise on both sides counts
+    as agreement."""
+    import itertools
+
+    mod = sys.modules[MOD]
+    acc.exhaustive_layers.add("spec-L1-arbitrary-pairs")
+    for a, b in itertools.product(ARB_POOL, repeat=2):
+        harness.process(mod, acc, "arbpair", {"a": a, "b": b}, "spec-L1-arbitrary-pairs", isolate=False)
+
+
+def _arb(f):
+    try:
+        return ("ok", f())
+    except (ValueError, NotImplementedError, TypeError) as e:
+        return ("raises", type(e).__name__)
+
+
 def strategy(tier):
     tree = versions.spec_expr_mixed(max_sets=2 if tier == "quick" else 3, max_leaves=2 if tier == "quick" else 4)
     return st.fixed_dictionaries({"a": tree, "b": tree, "c": tree})
@@ -149,6 +172,19 @@ def is_known(kind, case):
 
 
 def evaluate(kind, case, acc):
+    if kind == "arbpair":
+        from dep_logic.specifiers import parse_version_specifier as P
+
+        a, b = P(case["a"]), P(case["b"])
+        for name, l, r in (("comm-and", lambda: a & b, lambda: b & a), ("comm-or", lambda: a | b, lambda: b | a), ("idem-and", lambda: a & a, lambda: a), ("idem-or", lambda: a | a, lambda: a)):
+            x, y = _arb(l), _arb(r)
+            acc.oracle_evaluations += 1
+            same = x == y if x[0] == y[0] == "ok" else (x[0] == y[0] == "raises")
+            if x[0] == y[0] == "ok":
+                same = x[1] == y[1] and y[1] == x[1]
+            if not same:
+                acc.fail(kind, f"spec:arbitrary:{name}", case, expected="both sides equal (or both raise)", got={"left": str(x[1]), "right": str(y[1])})
+        return
     if kind.startswith("marker"):
         from . import c14m
 
